@@ -35,22 +35,19 @@ def quiet_world(ex, st, U, HU, N=8):
 
 
 def prog_put(ex, sw, st, idx):
-    """Transaction::commit of a transaction for (symbolic key, symbolic hash)"""
-    io = sw.io
-    n = st.meta.get("ntmp", 0) + 1
-    st.meta["ntmp"] = n
-    tmp = VStruct("NamedTempFile", [VOpaque("tmpid", n)])
-    f = io.new_file(st, ("staging", n), write=True, reopen=True)
-    bw = VStruct("BufWriter", [f, VVec([])])
+    """Transaction::commit of a transaction for (symbolic key, symbolic hash); the transaction value is what the
+    real Transaction::new + Transaction::write leave behind (entry.real_tx).  -> (..., state to continue from)"""
     k = sw.sym_key(st, f"t{idx}_key")
     h = sw.sym_hash(st, f"t{idx}_hash")
+    tx, st, size = E.real_tx(ex, sw, st, k, idx, pending=True)
     sz = ex.new_int(st, "u64", f"t{idx}_size")
+    st.pc.append(sz.t == size.t)
+    tx.fields[E.tx_field(ex, "size")] = sz
     w = sw.iw
     for i in range(w.U):
         st.pc.append(z3.Implies(z3.And(w.pk[i], w.hk[i] == h), w.sk[i] == sz.t))
     st.pc.append(w.total + 3 * sz.t <= U64)
-    tx = VStruct("Transaction", [tmp, sw.cas_ref, bw, VOpaque("hasher", (("content", idx),)), sz, VSym(k, "K")])
-    return ("put", find_fn(ex, "::commit", "transaction::"), [tx], dict(kind="put", key=k, hash=h, size=sz.t))
+    return ("put", find_fn(ex, "::commit", "transaction::"), [tx], dict(kind="put", key=k, hash=h, size=sz.t), st)
 
 
 def prog_remove(ex, sw, st, idx):
@@ -146,7 +143,10 @@ def explore(ex, kinds, U=2, HU=2, inv=None, max_states=200000, no_orphans=False,
         progs, infos = [], []
         hashes = {}
         for i, kd in enumerate(kinds):
-            name, fn, args, info = PROGS[kd](ex, sw, st, i)
+            pr = PROGS[kd](ex, sw, st, i)
+            name, fn, args, info = pr[:4]
+            if len(pr) > 4:
+                st = pr[4]    # the program's set-up ran real code: continue from the state it produced
             progs.append((f"T{i}:{name}", fn, args))
             infos.append(info)
             if kd == "put":
